@@ -8,6 +8,7 @@
 //   codec base64 / hexdump for every length 0..200 and random lengths up to 10^4;
 //         RFC reference in-process + a log re-checked offline by python (base64, binascii)
 #include <verif.hpp>
+#include <slice.hpp>
 
 #include <cstring>
 #include <memory>
@@ -166,23 +167,9 @@ static S nth_string(uint64_t idx) {
 static bool has_nul(const S& s) { return s.find('\0') != S::npos; }
 
 
-//! a view that is NOT followed by a NUL terminator: an exact-size heap block under ASan (reading past
-//! the end is a report), otherwise a slice between 0xFF guard bytes (reading past changes the result)
-struct Slice {
-    std::unique_ptr<char[]> buf;
+struct Slice : verif::Slice {
     SV sv;
-    explicit Slice(const S& s) {
-#if defined(__SANITIZE_ADDRESS__)
-        buf.reset(new char[s.size()]);
-        memcpy(buf.get(), s.data(), s.size());
-        sv = SV(buf.get(), s.size());
-#else
-        buf.reset(new char[s.size() + 2]);
-        buf[0] = (char)0xFF; buf[s.size() + 1] = (char)0xFF;
-        memcpy(buf.get() + 1, s.data(), s.size());
-        sv = SV(buf.get() + 1, s.size());
-#endif
-    }
+    explicit Slice(const S& s) : verif::Slice(s), sv(data(), size()) {}
 };
 
 static void check_one_string(const S& s) {
